@@ -19,9 +19,11 @@ class Env:
         self.loop_head = None
         self.loop_entry = None
         self.bound = ()
+        self.live = st      # the state that receives lemma instances / unfoldings (also while evaluating old(...))
 
     def with_state(self, st):
         e = Env(self.frame, st, self.old, self.results)
+        e.live = self.live
         e.vars = self.vars
         e.loop_head = self.loop_head
         e.loop_entry = self.loop_entry
@@ -35,6 +37,7 @@ class Env:
         e.loop_head = self.loop_head
         e.loop_entry = self.loop_entry
         e.bound = self.bound + ((v,) if quantified else ())
+        e.live = self.live
         return e
 
 
@@ -515,6 +518,7 @@ class SpecEval:
             e2.loop_head = env.loop_head
             e2.loop_entry = env.loop_entry
             e2.bound = env.bound
+            e2.live = env.live
             e2.vars = dict(env.vars)
             vals = [self.eval(a, env) for a in args]
             for p, v in zip(sd.params, vals):
@@ -537,6 +541,7 @@ class SpecEval:
         e2.loop_entry = env.loop_entry
         e2.vars = dict(env.vars)
         e2.bound = env.bound
+        e2.live = env.live
         actual = []
         for p, v in zip(sd.params, vals):
             if isinstance(v, Val) and (len(v.leaves) != 1 or m.kind(v.t) in ('pointer', 'map', 'slice', 'interface', 'struct')):
